@@ -148,8 +148,8 @@ def decodePacket (lookup : Nat → Nat → Option IE) (mode : Mode) (s : CState)
   | some (h, body) =>
     if h.version ≠ 10 then (s, .err)
     else if h.setID = Generated.cTemplateSetID then
-      let (s', o) := decodeTemplateSet lookup mode s h.dom body
-      (s', o >>= fun d => .ok { hdr := h, body := d })
+      ((decodeTemplateSet lookup mode s h.dom body).1,
+       (decodeTemplateSet lookup mode s h.dom body).2 >>= fun d => .ok { hdr := h, body := d })
     else
       (s, decodeDataSet mode s h.dom h.setID body >>= fun d => .ok { hdr := h, body := d })
 
